@@ -296,8 +296,8 @@ fn compile_mint_block(tx: &tir::Tx) -> Result<Option<primitives::Mint>, Error> {
         .map(|x| compile_native_asset_for_mint(x, true))
         .collect::<Result<Vec<_>, _>>()?;
 
-    // the aggregation below drops an entry both when it cancels out and when it
-    // overflows: make sure every net quantity fits the ledger's signed 64 bits
+    // net quantity per asset, in full precision: adding the compiled entries pairwise
+    // would drop an entry both when it cancels out and when a partial sum overflows
     let mut totals: BTreeMap<(primitives::PolicyId, primitives::AssetName), i128> = BTreeMap::new();
 
     for (policy, names) in mints.iter().chain(burns_items.iter()).flatten() {
@@ -306,30 +306,18 @@ fn compile_mint_block(tx: &tir::Tx) -> Result<Option<primitives::Mint>, Error> {
         }
     }
 
-    if let Some(total) = totals.values().find(|x| i64::try_from(**x).is_err()) {
-        return Err(Error::CoerceError(
-            total.to_string(),
-            "mint amount".to_string(),
-        ));
+    let mut all: primitives::Mint = BTreeMap::new();
+
+    for ((policy, name), total) in totals {
+        let total = coercion::number_into_i64(total, "mint amount")?;
+
+        // mints and burns that cancel out leave nothing behind
+        if let Ok(total) = primitives::NonZeroInt::try_from(total) {
+            all.entry(policy).or_default().insert(name, total);
+        }
     }
 
-    let mints = asset_math::aggregate_assets(mints);
-    let burns = asset_math::aggregate_assets(burns_items);
-
-    let all = match (mints, burns) {
-        (Some(mints), Some(burns)) => asset_math::aggregate_assets([mints, burns]),
-        (Some(mints), None) => Some(mints),
-        (None, Some(burns)) => Some(burns),
-        (None, None) => None,
-    };
-
-    // a policy whose mints and burns cancel out must not stay behind as an empty map
-    let all = all
-        .map(|mut policies| {
-            policies.retain(|_, assets| !assets.is_empty());
-            policies
-        })
-        .filter(|policies| !policies.is_empty());
+    let all = if all.is_empty() { None } else { Some(all) };
 
     Ok(all)
 }
